@@ -289,6 +289,13 @@ V("C01", "torch-sum-keyword-dim", "silent", "", "pytorch sum passes the axis by 
   ("src/pyhf/tensor/pytorch_backend.py", "else torch.sum(tensor_in, axis)", "else torch.sum(tensor_in, dim=axis)"))
 V("C01", "numpy-where-keywords", "silent", "", "numpy where passes the value tensors by keyword",
   ("src/pyhf/tensor/numpy_backend.py", "return np.where(mask, tensor_in_1, tensor_in_2)", "return np.where(mask, x=tensor_in_1, y=tensor_in_2)"))
+V("C18", "observations-by-position", "fire", "C18.R5", "writexml hands each channel the observation at the channel's POSITION (observations are listed in another order)",
+  ("src/pyhf/writexml.py", "        for channelspec in spec['channels']:\n            channelfilename = str(", "        for channel_index, channelspec in enumerate(spec['channels']):\n            channelfilename = str("),
+  ("src/pyhf/writexml.py", "                channel = build_channel(spec, channelspec, spec.get('observations'))", "                channel = build_channel(spec, channelspec, [dict(spec['observations'][channel_index], name=channelspec['name'])])"))
+V("C18", "channel-file-name-without-channel", "fire", "C18.R5", "every channel is written to the same file name: the last one wins",
+  ("src/pyhf/writexml.py", "Path(specdir).joinpath(f'{resultprefix}_{channelspec[\"name\"]}.xml')", "Path(specdir).joinpath(f'{resultprefix}_channel.xml')"))
+V("C18", "parse-dedupes-keeping-first-silently", "silent", "", "dedupe_parameters written with an explicit loop",
+  ("src/pyhf/readxml.py", "    return list({v['name']: v for v in parameters}.values())", "    unique = {}\n    for v in parameters:\n        unique[v['name']] = v\n    return list(unique.values())"))
 
 # ------------------------------------------------------------------ C08
 INF = "src/pyhf/infer/__init__.py"
